@@ -112,35 +112,39 @@ def slices(tier):
     S = Slice
     out = [
         # scalar algebra: sum / product / division / power / abs / math functions
-        S("alg-r", ["v", "u", "f", "two", "one"] + ([] if q else ["g", "onehalf"]), ALG if not q else ALG - {"sub", "sign"}, 2, False),
-        S("alg-c", ["v", "u", "f", "two"] + ([] if q else ["imag"]), {"add", "mul", "div", "conj", "real", "imag", "abs"} | (set() if q else {"neg"}), 2, True),
+        S("alg-r", ["v", "u", "f", "two"] + ([] if q else ["one", "g"]), ALG if not q else ALG - {"sub", "sign", "neg", "sqrt"}, 2, False),
+        S("alg-c", ["v", "u", "f"] + ([] if q else ["two", "imag"]), {"add", "mul", "div", "conj", "real", "imag", "abs"} | (set() if q else {"neg"}), 2, True),
         # list tensors and contractions (the known defect lives here)
-        S("list-r", ["v", "u", "f", "c", "one", "z"] + ([] if q else ["onehalf"]), {"list", "dot", "inner", "mul", "add"}, 2 if q else 3, False),
+        S("list-r", ["v", "u", "f", "c", "one", "z"] + ([] if q else ["onehalf"]), {"list", "dot", "inner", "mul", "add"}, 2, False),
         S("list-c", ["v", "u", "c", "one", "z"], {"list", "inner", "dot", "conj", "mul"}, 2 if q else 3, True),
         # conditionals: branches, zero branches, argument-dependent conditions
-        S("cond-r", ["v", "u", "f", "g", "z"] + ([] if q else ["two"]), {"lt", "cond", "mul"} | (set() if q else {"eq"}), 2 if q else 3, False),
+        S("cond-r", ["v", "u", "f", "g", "z"] + ([] if q else ["two"]), {"lt", "cond", "mul"} | (set() if q else {"eq"}), 2, False),
         # linear operators on terminals, restrictions, variables, geometry, reference values
         S("linop-r", ["v", "u", "gv", "gu", "x", "f"] + ([] if q else ["vol", "two"]), {"restrict", "variable", "dot", "mul", "index"} | (set() if q else {"inner", "add"}), 2, False),
         S("ref-r", ["v", "rv", "rgv", "f", "c"], {"mul", "add", "dot", "restrict", "variable", "index"}, 2, False),
         # vector arguments, sesquilinear products
         S("vec-c", ["vv", "uu", "c", "f"], {"inner", "dot", "outer", "conj", "mul", "index", "isum"}, 2, True, idx=(10, 11), maxrank=2),
         # real mode erases conj / real before the check
-        S("erase-r", ["v", "u", "f", "two"], {"conj", "real", "mul", "add", "abs"}, 2 if q else 3, False),
+        S("erase-r", ["v", "f", "two"] + ([] if q else ["u"]), {"conj", "real", "mul", "add", "abs"}, 2, False),
         # deep random terms (no Power in complex mode: do_comparison_check calls float() on the exponent,
         # which for a symbolic exponent recurses between Expr.__float__ and Terminal.evaluate without
         # practical end)
-        S("deep-r", ["v", "u", "f", "g", "c", "gv", "one", "two", "onehalf", "z", "zz"], DEEP, 6, False, idx=(10, 11), maxrank=2, simulate=100 if q else 1200),
-        S("deep-c", ["v", "u", "f", "c", "gu", "one", "two", "imag", "z", "zz"], (DEEP | {"conj", "real", "imag"}) - {"restrict", "pow"}, 6, True, idx=(10, 11), maxrank=2, simulate=80 if q else 1000),
-        S("deep-vec-c", ["vv", "uu", "c", "f", "two", "z", "zz"], {"inner", "dot", "outer", "conj", "mul", "index", "isum", "add", "sub", "list", "as_tensor", "div", "cond", "lt", "real"}, 5, True, idx=(10, 11), maxrank=2, simulate=50 if q else 700),
+        S("deep-r", ["v", "u", "f", "g", "c", "gv", "one", "two", "onehalf", "z", "zz"], DEEP, 6, False, idx=(10, 11), maxrank=2, simulate=50 if q else 500),
+        S("deep-c", ["v", "u", "f", "c", "gu", "one", "two", "imag", "z", "zz"], (DEEP | {"conj", "real", "imag"}) - {"restrict", "pow"}, 6, True, idx=(10, 11), maxrank=2, simulate=40 if q else 350),
+        S("deep-vec-c", ["vv", "uu", "c", "f", "two", "z", "zz"], {"inner", "dot", "outer", "conj", "mul", "index", "isum", "add", "sub", "list", "as_tensor", "div", "cond", "lt", "real"}, 5, True, idx=(10, 11), maxrank=2, simulate=25 if q else 250),
     ]
     if not q:
         out += [
+            # three constructor calls over narrower pools
+            S("list3-r", ["v", "f", "c", "one", "z"], {"list", "dot", "mul", "add"}, 3, False),
+            S("cond3-r", ["v", "f", "g", "z"], {"lt", "cond", "mul"}, 3, False),
+            S("condlist3-r", ["v", "f", "c", "z"], {"lt", "cond", "list", "dot"}, 3, False),
+            S("alg3-r", ["v", "u", "f"], {"add", "mul", "div"}, 3, False),
+            S("erase3-r", ["v", "f"], {"conj", "real", "mul", "add"}, 3, False),
             S("index-r", ["vv", "uu", "c", "one", "z"], {"index", "isum", "as_tensor", "mul", "list"}, 3, False),
-            S("cond-c", ["v", "f", "two", "z"], {"lt", "cond", "real", "conj", "mul"}, 3, True),
-            S("alg3-r", ["v", "u", "f", "two"], {"add", "mul", "div", "pow", "abs"}, 3, False),
-            S("alg3-c", ["v", "u", "f", "imag"], {"add", "mul", "conj", "real", "div"}, 3, True),
             S("index4-r", ["vv", "c", "one"], {"index", "isum", "mul", "list"}, 4, False),
-            S("cond3-r", ["v", "f", "g", "one", "z"], {"lt", "cond", "mul", "add", "list", "dot"}, 3, False),
+            S("cond-c", ["v", "f", "z"], {"lt", "cond", "real", "conj", "mul"}, 3, True),
+            S("alg3-c", ["v", "u", "f"], {"add", "mul", "conj"}, 3, True),
         ]
     return out
 
@@ -883,13 +887,14 @@ def judge(col, run, pool, recs, results, tv=None, ctx=None):
             ctx.add_tlc(tres)
     follows = {"as_coded": 0, "intended": 0}
     mode = " complex" if run.cm else ""
+    rjson, pjson = run.to_json(), pool.to_json()
     for rec, r in zip(recs, results):
         sname = run.subs[rec["sl"] - 1].name
         col.count("terms_replayed")
         if r["status"] != "ok":
             col.count("skipped:" + r["status"].split(":")[0])
             continue
-        rdoc = {"run": run.to_json(), "pool": pool.to_json(), "sl": rec["sl"], "prog": r["prog"]}
+        rdoc = {"run": rjson, "pool": pjson, "sl": rec["sl"], "prog": r["prog"]}
         prog_txt = f"[{sname}{mode}] {r['str']}"
         for rv, tid in zip(r["real"], r["tids"]):
             fa = rv["fa"]
@@ -959,8 +964,11 @@ def records_of(res):
         if key in seen:
             continue
         seen.add(key)
-        rec["_i"] = len(recs)
         recs.append(rec)
+    # TLC workers print in no particular order: a canonical order makes witnesses reproducible
+    recs.sort(key=lambda r: (r["sl"], len(r["prog"]), json.dumps(r["prog"])))
+    for k, rec in enumerate(recs):
+        rec["_i"] = k
     return recs
 
 
